@@ -327,8 +327,8 @@ def adapters(names=None):
 def solver_monitor(solver, o, h, st):
     if h.startswith('S exception'):
         if solver.name == 'ocp':
-            import c13                  # unsupported criterion ⇔ invalid_argument, outputs untouched
-            return c13.monitor(o, h, st)
+            import loopmon              # unsupported criterion ⇔ invalid_argument, outputs untouched
+            return loopmon.c13_part(o, h, st)
         return None
     m = monitor(o, h, st, flavor=solver.name)
     if m:
@@ -337,8 +337,8 @@ def solver_monitor(solver, o, h, st):
         import loop_fista               # ∇ψ(x̂) reported / used for ε is the gradient at the reported x̂
         return loop_fista.monitor_c06(o, h, st)
     if solver.name == 'ocp':
-        import c13                      # ε against an independent exact roll-out (Converged runs)
-        return c13.monitor(o, h, st)
+        import loopmon                  # ε against an independent exact roll-out (Converged runs)
+        return loopmon.c13_part(o, h, st)
     return None
 
 
